@@ -443,6 +443,10 @@ func (sel *Selection) Delete() (err error) {
 		}
 		return sel.parent.ClearField(leaf)
 	}
+	if _, isData := sel.Meta().(meta.HasDataDefinitions); !isData || meta.IsAction(sel.Meta()) || meta.IsNotification(sel.Meta()) {
+		// the selection of an action or notification
+		return fmt.Errorf("%w. '%s' is not a data node, it cannot be deleted", fc.BadRequestError, sel.Meta().(meta.Identifiable).Ident())
+	}
 	if sel.InsideList {
 		r := ListRequest{
 			Request: Request{
